@@ -25,12 +25,28 @@ def gen_case(rng):
         "outside/decoy.yaml": {"fmt": "yaml", "docs": [DECOY_A]},
         "outside/decoy.x.yaml": {"fmt": "yaml", "docs": [{"x": 1}]},
         "secret.yaml": {"fmt": "yaml", "docs": [DECOY_A]},
+        # siblings whose path merely EXTENDS the root's path as a string
+        "root-secrets/decoy.yaml": {"fmt": "yaml", "docs": [DECOY_A]},
+        "root.bak/decoy.yaml": {"fmt": "yaml", "docs": [DECOY_A]},
+        "rootx/decoy.yaml": {"fmt": "yaml", "docs": [DECOY_A]},
     }
-    decoys = ["outside/decoy.yaml", "secret.yaml", "outside/decoy.x.yaml"]
+    decoys = ["outside/decoy.yaml", "secret.yaml", "outside/decoy.x.yaml", "root-secrets/decoy.yaml", "root.bak/decoy.yaml", "rootx/decoy.yaml"]
     cwd, root, inputs = "root", ".", ["a.b.yaml"]
     kind = rng.choice(["benign", "parent-dotdot", "parent-abs", "link-rel", "link-abs", "link-dir", "link-chain",
                        "input-outside", "root-sub", "root-dotdot", "parent-glob", "filename-chain-link", "benign-link-inside",
-                       "link-dotdot-inside"])
+                       "link-dotdot-inside", "sibling-parent", "sibling-link", "sibling-link-dir", "sibling-link-abs"])
+    sib = rng.choice(["root-secrets", "root.bak", "rootx"])
+    if kind == "sibling-parent":
+        layout["root/a.b.yaml"]["docs"] = [dict(over, **{"$parent": rng.choice([f"../{sib}/decoy", "{W}/" + sib + "/decoy"])})]
+    elif kind == "sibling-link":
+        layout["root/l.yaml"] = {"link": f"../{sib}/decoy.yaml"}
+        inputs = ["l.yaml"]
+    elif kind == "sibling-link-abs":
+        layout["root/l.yaml"] = {"link": "{W}/" + sib + "/decoy.yaml"}
+        inputs = ["l.yaml"]
+    elif kind == "sibling-link-dir":
+        layout["root/ld"] = {"link": rng.choice([f"../{sib}", "{W}/" + sib])}
+        inputs = ["ld/decoy.yaml"]
     if kind == "parent-dotdot":
         layout["root/a.b.yaml"]["docs"] = [dict(over, **{"$parent": rng.choice(["../outside/decoy", "../secret", "sub/../../secret", ["a", "../outside/decoy"]])})]
     elif kind == "parent-abs":
@@ -165,6 +181,105 @@ def evaluate(rep, cases, strace=False):
     return bad
 
 
+# ---------------------------------------------------------------- library: SetRoot called several times
+ROOT_SEQS = [["."], ["sub"], [".", "sub"], ["sub", ".."], ["sub", "../.."], [".", ".."], [".", "{W}"], [".", "/"], ["sub", "../../outside"],
+             [".", "../outside"], ["sub", "."], [".", "sub", ".."], ["sub", "{W}/root"], [".", "{W}/root/sub"], ["sub", "{W}/outside"],
+             [".", "ldout"], ["sub", "../ldout"], [".", "{W}/root-secrets"]]
+
+
+def lib_case(rng):
+    c = gen_case(rng)
+    while c["cwd"] != "root":
+        c = gen_case(rng)
+    c["layout"]["root/ldout"] = {"link": "../outside"}
+    roots = rng.choice(ROOT_SEQS)
+    # after a second SetRoot the interesting inputs are the decoys and the files of the first root
+    inputs = [rng.choice(["a.b.yaml", "sub/c.yaml", "../outside/decoy.yaml", "../secret.yaml", "{W}/secret.yaml", "{W}/outside/decoy.yaml",
+                          "../root-secrets/decoy.yaml", "ldout/decoy.yaml", "a.yaml"])]
+    r = rng.random()
+    if r < 0.3:
+        inputs = c["opts"]["inputs"]
+    elif r < 0.7:
+        inputs = [rng.choice(["a.b.yaml", "sub/c.yaml", "a.yaml", "./sub/../a.b.yaml"])]
+    return dict(c, lib={"roots": roots, "inputs": inputs}, meta={"kind": "lib:" + "+".join(roots)})
+
+
+def run_lib_variants(case):
+    W = mktemp_dir("verif-c18l-")
+    try:
+        c = with_real_paths(case, W)
+        lib = {"roots": [r.replace("{W}", W) for r in case["lib"]["roots"]], "inputs": [i.replace("{W}", W) for i in case["lib"]["inputs"]]}
+        out, mop = [], None
+        for variant in ("A", "B", "gone"):
+            for f in os.listdir(W):
+                p = os.path.join(W, f)
+                shutil.rmtree(p) if os.path.isdir(p) and not os.path.islink(p) else os.unlink(p)
+            lay = dict(c["layout"])
+            for dname in case["decoys"]:
+                if variant == "B":
+                    lay[dname] = {"fmt": "yaml", "docs": [DECOY_B]}
+                elif variant == "gone":
+                    lay.pop(dname, None)
+            materialise(W, lay)
+            cwd = os.path.join(W, "root")
+            g = run_go([{"op": "files", "id": 0, "dir": cwd, "roots": lib["roots"], "inputs": lib["inputs"]}]).get(0) or {}
+            out.append({"variant": variant, "res": g})
+            if variant == "A":
+                mop = {"op": "libfs", "entries": model_entries(W, lay), "cwd": cwd, "env": {}, "roots": lib["roots"], "inputs": lib["inputs"]}
+        return out, mop
+    finally:
+        shutil.rmtree(W, ignore_errors=True)
+
+
+def lib_status(g):
+    if any(k in g for k in ("panic", "crash", "timeout", "oom", "protocol_error")) or not g:
+        return ("bad", str(g)[:150])
+    if "stage" in g:
+        return ("err", g["stage"])
+    if "out" in g and "err" in g["out"]:
+        return ("err", "output")
+    return ("ok", (g.get("docs"), (g.get("out") or {}).get("ok")))
+
+
+def evaluate_lib(rep, cases):
+    res = pmap(run_lib_variants, cases)
+    ops = []
+    for i, (obs, op) in enumerate(res):
+        op["id"] = i
+        ops.append(op)
+    mres = run_model(ops)
+    bad = 0
+    for i, (c, (obs, op)) in enumerate(zip(cases, res)):
+        a, b, g = [lib_status(o["res"]) for o in obs]
+        rep.case({"layout": c["layout"], "lib": c["lib"]}, True, sample={"kind": c["meta"]["kind"], "lib": c["lib"], "status": a[0]} if i < 3 else None)
+        rep.count(f"{c['meta']['kind']}:{a[0]}")
+        rep.traces += 1
+        m = mres.get(i) or {}
+        d = None
+        if a[0] == "bad":
+            d = "implementation " + a[1]
+        elif not (a == b == g) and not (a[0] == b[0] == g[0] == "err"):
+            d = "library result depends on a file outside the root(s) set with SetRoot"
+        elif a[0] == "ok" and ("AAA" in str(a[1]) or "leak" in str(a[1])):
+            d = "content of a file outside the root reached the documents"
+        elif "unmodelled" in m:
+            d = None
+        elif "err" in m and a[0] == "ok":
+            d = f"implementation succeeds where the model of SetRoot/os.Root reports {m['err']}"
+        elif "ok" in m and a[0] == "err":
+            d = f"implementation fails ({obs[0]['res'].get('stage')}: {obs[0]['res'].get('msg', '')[:100]}) where the model succeeds"
+        elif "ok" in m and a[0] == "ok" and (m["ok"]["merged"] != a[1][0] or m["ok"]["docs"] != a[1][1]):
+            d = "documents differ from the model"
+        elif "ok" not in m and "err" not in m:
+            d = f"MODEL-PROBLEM {str(m)[:150]}"
+        if d:
+            bad += 1
+            if len(rep.violations) < 4:
+                rep.disagreements_checked += 1
+                rep.violation(d, {"case": {k: v for k, v in c.items()}, "observed": obs, "model": m})
+    return bad
+
+
 def run(rep):
     rep.rule = ("directory trees with a designated root and decoy layer files outside it; inputs inside the root whose $parent values "
                 "(.., absolute, globs), filename chains and symlinks (relative, absolute, chained, directory symlinks, links whose "
@@ -177,6 +292,7 @@ def run(rep):
     n = 500 if rep.tier == "quick" else 8000
     cases = [c for _, c in load_corpus(PID)] + [gen_case(rng) for _ in range(n)]
     bad = evaluate(rep, cases, strace=False)
+    bad += evaluate_lib(rep, [lib_case(rng) for _ in range(250 if rep.tier == "quick" else 6000)])
     if rep.tier == "thorough":
         bad += evaluate(rep, cases[:1500], strace=True)
         rep.extra["strace_cases"] = min(1500, len(cases))
@@ -187,6 +303,8 @@ def run(rep):
 
 
 def replay(rep, payload):
+    if "lib" in payload["case"]:
+        return 1 if evaluate_lib(rep, [payload["case"]]) else 0
     obs, op = run_variants(payload["case"], strace=True)
     op["id"] = 0
     m = run_model([op]).get(0)
